@@ -782,7 +782,27 @@ func (d *diskState) recordEdit(side, rel string) {
 // recordValues notes the content of every regular file at or below a path the
 // user just wrote (read back from the disk: a write into a full device leaves
 // what it leaves), so that every byte in a root is attributable to the user.
-func (d *diskState) recordValues(side, rel string) {
+// before is what the reference walk saw at rel just before the operation: a
+// file that holds the same bytes and the same executable bit as before (two
+// writes into a full device both end up empty; a copy lands on an identical
+// copy) has not been modified - a scan cannot and need not tell it from
+// untouched content - and is not recorded as a new value of the user's. The
+// same goes for a file that is put back exactly as the saved archive records
+// it at that path (deleted and written again into the full device): that is
+// the last synchronized state itself, "unchanged since the last successful
+// synchronization" in the words of C01.
+func (d *diskState) recordValues(side, rel string, before *core.Entry) {
+	var archive *core.Entry
+	archiveLoaded := false
+	archived := func(r string) *core.Entry {
+		if !archiveLoaded {
+			archiveLoaded = true
+			if before != nil || rel != "" {
+				archive, _ = d.h.loadArchive()
+			}
+		}
+		return lookup(archive, r)
+	}
 	root := d.roots[side]
 	if rel != "" && !parentsAreDirs(root, rel) {
 		return
@@ -809,6 +829,17 @@ func (d *diskState) recordValues(side, rel string) {
 		case st.Mode().IsRegular():
 			if data, err := os.ReadFile(abs); err == nil {
 				sum := sha1.Sum(data)
+				same := func(e *core.Entry) bool {
+					return e != nil && e.Kind == core.EntryKind_File && bytes.Equal(e.Digest, sum[:]) && e.Executable == (st.Mode()&0o111 != 0)
+				}
+				if same(lookup(before, strings.TrimPrefix(strings.TrimPrefix(r, rel), "/"))) {
+					d.h.s.Count("probe.user_rewrote_identical_content", 1)
+					return
+				}
+				if same(archived(r)) {
+					d.h.s.Count("probe.user_restored_archived_content", 1)
+					return
+				}
 				d.mu.Lock()
 				if d.values == nil {
 					d.values = map[string]userValue{}
@@ -864,6 +895,18 @@ func (d *diskState) userOp(op simkit.Op) {
 	case "edit", "del", "chmod":
 		if rel != "" && !parentsAreDirs(root, rel) {
 			return
+		}
+	}
+	// (what the written path holds just before the operation: see recordValues)
+	var before *core.Entry
+	switch op.Kind {
+	case "put", "putbig", "edit":
+		if rel != "" {
+			before = d.entryAt(abs, rel)
+		}
+	case "cp", "mv":
+		if to := op.Str(2); to != "" {
+			before = d.entryAt(filepath.Join(root, to), to)
 		}
 	}
 	switch op.Kind {
@@ -1007,10 +1050,10 @@ func (d *diskState) userOp(op simkit.Op) {
 	case "put", "putbig", "edit":
 		// (only what this operation itself wrote: a regular file at that path)
 		if st, err := os.Lstat(abs); err == nil && st.Mode().IsRegular() {
-			d.recordValues(side, rel)
+			d.recordValues(side, rel, before)
 		}
 	case "cp", "mv":
-		d.recordValues(side, op.Str(2))
+		d.recordValues(side, op.Str(2), before)
 	}
 	d.h.s.Logf("user", "%s %s %q -> %s", op.Kind, side, rel, render(d.walkTree(side)))
 	d.h.s.Count("probe.user_edits", 1)
@@ -1055,8 +1098,8 @@ func (d *diskState) mirror() {
 	d.values = nil
 	d.mu.Unlock()
 	d.recordEdit("beta", "")
-	d.recordValues("alpha", "")
-	d.recordValues("beta", "")
+	d.recordValues("alpha", "", nil)
+	d.recordValues("beta", "", nil)
 }
 
 // mkSpecial creates an entry of an unsupported type: a UNIX socket file. (A
